@@ -927,9 +927,15 @@ class Vector():
 
 	def _unary_operation(self, op_func, op_name: str):
 		"""Helper function to handle unary operations on each element."""
+		# None propagates; the result is typed from its own values (abs of a
+		# complex vector is float, -True is the int -1), as binary operations do
+		result_values = tuple(None if x is None else op_func(x) for x in self)
+		result_dtype = self._dtype
+		if any(x is not None for x in result_values):
+			result_dtype = infer_dtype(result_values)
 		return Vector(
-			tuple(op_func(x) for x in self),
-			dtype=self._dtype,
+			result_values,
+			dtype=result_dtype,
 			name=self._name,
 			as_row=self._display_as_row
 		)
